@@ -91,12 +91,24 @@ def impl(case):
             e = Extinction.from_table(e.to_table())
     q = np.array(case['queries']) * WUNITS[case['qunit']] * qu
     av = e.get_av(q)
-    return dict(av=[float(x) for x in np.asarray(av)], av_v=float(np.asarray(e.get_av(np.array([0.55]) * u.micron))[0]))
+    # what get_av itself works with: the table as stored and the query / V wavelengths converted to the table's unit (floats)
+    tu = e.wav.unit
+    return dict(av=[float(x) for x in np.asarray(av)], av_v=float(np.asarray(e.get_av(np.array([0.55]) * u.micron))[0]),
+                tabw=[float(x) for x in e.wav.value], tabc=[float(x) for x in e.chi.value], qconv=[float(x) for x in q.to(tu).value],
+                vconv=float((np.array([0.55]) * u.micron).to(tu).value[0]))
 
 
-def model_requests(case):
+MODEL_NEEDS_IMPL = True
+SNAP_TOL = 1e-14       # Extinction._on_table
+
+
+def model_requests(case, im=None):
     tab = [[F(a), F(b)] for a, b in zip(case['wav'], case['chi'])]
-    return [('get_av', [tab, F(0.55), [F(t) for t in case['queries']]])]
+    reqs = [('get_av', [tab, F(0.55), [F(t) for t in case['queries']]])]
+    if isinstance(im, dict) and 'tabw' in im:
+        # ExtSnap.get_av_snap_m on the implementation's own converted floats (exact rationals of them), with the code's snap radius
+        reqs.append(('get_av_snap', [F(SNAP_TOL), [[F(a), F(b)] for a, b in zip(im['tabw'], im['tabc'])], F(im['vconv']), [F(x) for x in im['qconv']]]))
+    return reqs
 
 
 def judge(case, im, mo):
@@ -142,6 +154,22 @@ def judge(case, im, mo):
             doc = Fraction(-4, 10) * chi_at(tt) / chi_at(F(0.55))
         if abs(F(got) - doc) > F(rtol) * (abs(doc) + Fraction(1, 1000)):
             fail.append('law: at %r micron the pattern is %r; -0.4 chi/chi_V (0 outside the table) is %r' % (t, got, float(doc)))
+    # the code path itself: same floats in, so only the rounding of np.interp and of the division is left - no query is skipped
+    if len(mo) > 1 and not isinstance(mo[1], tuple):
+        tags.append('snap-compared')
+        tw, tc = [F(x) for x in im['tabw']], [F(c) for c in im['tabc']]
+
+        def cond2(t):
+            worst = 0.0
+            for i in range(len(tw) - 1):
+                if tw[i] <= t <= tw[i + 1]:
+                    num = tc[i] + (t - tw[i]) * (tc[i + 1] - tc[i]) / (tw[i + 1] - tw[i])
+                    worst = max(worst, float(abs(t) * abs(tc[i + 1] - tc[i]) / ((tw[i + 1] - tw[i]) * abs(num))) if num != 0 else math.inf)
+            return worst
+        for t, xq, got, want in zip(case['queries'], im['qconv'], im['av'], mo[1]):
+            rt = 1e-12 + 4e-16 * (cond2(F(xq)) + cond2(F(im['vconv'])))
+            if not close(got, want, rt, 1e-300):
+                disagree.append('get_av on the converted floats: query %r micron (%r in table units): implementation %r, ExtSnap model %r' % (t, xq, got, float(want)))
     if abs(im['av_v'] + 0.4) > 1e-12:
         fail.append('normalisation: the pattern at 0.55 micron is %r, not -0.4' % im['av_v'])
     return dict(disagree=disagree[:3], fail=fail[:3], nontrivial=inside and outside, tags=tags)
